@@ -524,4 +524,246 @@ theorem taskFinished_tw {s s' : State} {w : Nat} {id : TaskId} {o : Out} {b : Bo
               have hnr4 := hi4.tw.no_rd_of_state hs5 (by simp [hfin])
               exact (removeTask_tw' hi4 hn4 hnr4 h5).mono (fun u hu => hu.1)
 
+/-! ### `task_reject`, `request_enabled` -/
+
+theorem requeue_tw {s' s3 : State} {task : Task} {out : Out} {b : Bool} (hi : TWI (fun u => u = task.id) s')
+    (ht : findTask s'.tasks task.id = some task) (hnr : ∀ x v, (task.id, x, v) ∉ s'.redirects)
+    (h : (match (s'.setTask { task with state := .waiting 0 }).addReady { task with state := .waiting 0 } with
+          | .error e => Except.error e
+          | .ok (s2, retracted) =>
+            match s2.retract retracted with
+            | .error e => Except.error e
+            | .ok (s3, out) => (Except.ok (s3, out, true) : M (State × Out × Bool))) = .ok (s3, out, b)) : TWI noD s3 := by
+  have hi1 : TWI noD (s'.setTask { task with state := .waiting 0 }) := by
+    constructor
+    · exact (hi.tw.put_noob (t' := { task with state := .waiting 0 }) ht trivial (fun _ _ _ _ h => h)
+        (fun x v hm => absurd hm (hnr x v))).mono (fun u hu => hu.2 hu.1)
+    · exact hi.mnu.put_nonmn (t' := { task with state := .waiting 0 }) ht (by simp)
+  split at h
+  · cases h
+  · rename_i s2 retracted ha
+    split at h
+    · cases h
+    · rename_i s4 out4 hr
+      cases h
+      exact retract_tw ((addReady_core ha).twi hi1) hr
+
+/-- Retracting → Assigned on the redirect target (which holds the task), the redirect is consumed -/
+theorem resolve_redirect_tw {s : State} (hi : TWI noD s) {task : Task} {id : TaskId} {w0 target trv : Nat} {inst : Nat}
+    (ht : findTask s.tasks id = some task) (hs : task.state = .retracting w0)
+    (hfind : s.redirects.find? (·.1 = id) = some (id, target, trv)) :
+    TW3 noD (putTask s.tasks { task with inst := inst, state := .assigned target trv }) s.workers
+        (s.redirects.filter (·.1 ≠ id)) ∧
+    MNU (putTask s.tasks { task with inst := inst, state := .assigned target trv }) s.workers := by
+  have hid : task.id = id := findTask_some_id ht
+  have hmem := (rd_mem_of_find hfind).1
+  have hin : id ∈ asgW s.workers target := hi.tw.d1 id target trv (fun e => e) hmem
+  have ht1 : findTask s.tasks ({ task with inst := inst, state := .assigned target trv } : Task).id = some task := by
+    rw [hid]; exact ht
+  constructor
+  · refine hi.tw.frame id (fun u _ => Or.inr (fun e => e)) (fun u hu => by rw [stOf_put ht1, if_neg (by simpa [hid] using hu)])
+      (fun _ _ _ h => h) (fun _ _ _ h => h) (fun _ _ _ h => h) (fun _ _ _ _ h => (rd_filter_mem.mp h).1) ?_ ?_ ?_ ?_ ?_
+    · intro w v _ hs'
+      rw [stOf_put ht1] at hs'
+      simp only [hid, if_true, Option.some.injEq] at hs'
+      rcases hs' with e | e <;> cases e
+      exact hin
+    · intro w _ hs'
+      rw [stOf_put ht1] at hs'
+      simp only [hid, if_true, Option.some.injEq] at hs'; cases hs'
+    · intro l _ hs'
+      rw [stOf_put ht1] at hs'
+      simp only [hid, if_true, Option.some.injEq] at hs'; cases hs'
+    · intro w v _ hm; exact absurd rfl (rd_filter_mem.mp hm).2
+    · intro w v hm; exact absurd rfl (rd_filter_mem.mp hm).2
+  · exact hi.mnu.put_nonmn ht1 (by simp)
+
+theorem taskReject_tw {s s' : State} {w : Nat} {id : TaskId} {rv : Option Nat} {o : Out} {b : Bool}
+    (hi : TWI noD s) (hok : RejectOk s w id rv) (h : s.taskReject w id rv = .ok (s', o, b)) : TWI noD s' := by
+  unfold State.taskReject at h
+  split at h
+  · cases h; exact hi
+  · rename_i task ht
+    have hok' := fun a b => hok task a b ht
+    simp only [State.task?] at ht
+    have hid : task.id = id := findTask_some_id ht
+    have hst := stOf_of_find ht
+    split at h
+    · cases h
+    · rename_i wk0 hg
+      have hfw0 := getWorker_spec hg
+      extract_lets wk s0 tw requeue s1r at h
+      have hv : wk.id = wk0.id ∧ wAsg wk = wAsg wk0 ∧ wPre wk = wPre wk0 ∧ wMn wk = wMn wk0 := by
+        cases rv <;> exact ⟨rfl, rfl, rfl, rfl⟩
+      clear_value wk
+      obtain ⟨b0, b1, b2, b3⟩ := hv
+      have hi0 : TWI noD s0 :=
+        hi.setWorker_same (wk := wk0) (by rw [b0, findWorker_some_id hfw0]; exact hfw0) b1 b2 b3
+      have ht0 : findTask s0.tasks task.id = some task := by rw [hid]; exact ht
+      have hm0 : ∀ {s1 : State}, s1.tasks = s0.tasks → TW3 (fun u => noD u ∨ u = id) s0.tasks s1.workers s1.redirects →
+          MNU s0.tasks s1.workers → TWI (fun u => u = task.id) s1 := by
+        intro s1 e a b
+        exact ⟨by rw [e]; exact a.mono (fun u hu => by rcases hu with h1 | h1; exact h1.elim; rw [hid]; exact h1),
+          by rw [e]; exact b⟩
+      split at h
+      · -- assigned
+        rename_i w' rv' hs
+        obtain ⟨e1, e2⟩ := hok' w' rv' hs
+        subst e1
+        simp only [ne_eq, not_true_eq_false, if_false, e2] at h
+        split at h
+        · cases h
+        · split at h
+          · cases h
+          · rename_i s1 hw
+            obtain ⟨a, b'⟩ := removeSn_tw hi0.tw hi0.mnu hw
+            simp only [requeue] at h
+            refine requeue_tw (hm0 (withWorker_tasks hw) a b') (by rw [withWorker_tasks hw]; exact ht0) ?_ h
+            rw [withWorker_redirects hw, hid]
+            exact hi.tw.no_rd_of_state hst (by simp [hs])
+      · -- prefilled
+        rename_i w' hs
+        split at h
+        · cases h
+        · rename_i s1 hw
+          obtain ⟨a, b'⟩ := removePrefill_tw hi0.tw hi0.mnu hw
+          split at h
+          · cases h
+          · rename_i s2 hq
+            have hc := removePrefilled_core hq
+            simp only [requeue] at h
+            refine requeue_tw (hc.twi (hm0 (withWorker_tasks hw) a b')) (by rw [hc.t, withWorker_tasks hw]; exact ht0) ?_ h
+            rw [hc.r, withWorker_redirects hw, hid]
+            exact hi.tw.no_rd_of_state hst (by simp [hs])
+      · -- retracting
+        rename_i w' hs
+        split at h
+        · simp only [Except.ok.injEq, Prod.mk.injEq] at h
+          rw [← h.1]; exact hi0
+        · split at h
+          · rename_i t0 target trv hfind
+            simp only [Except.ok.injEq, Prod.mk.injEq] at h
+            rw [← h.1]
+            have hmem := rd_mem_of_find hfind
+            have ht0' : t0 = id := by simpa using hmem.2
+            subst ht0'
+            obtain ⟨k1, k2⟩ := resolve_redirect_tw (inst := task.inst) hi0 (by rw [← hid]; exact ht0) hs hfind
+            exact ⟨k1, k2⟩
+          · rename_i hnone
+            simp only [requeue] at h
+            refine requeue_tw (hi0.mono (fun u hu => hu.elim)) ht0 ?_ h
+            rw [hid]; exact fun x v => rd_find_none hnone x v
+      · cases h
+      · cases h
+      · cases h
+      · cases h
+
+theorem requestEnabled_tw {D} {s s' : State} {w rq rv : Nat} (hi : TWI D s) (h : s.requestEnabled w rq rv = .ok s') :
+    TWI D s' := by
+  obtain ⟨wk, wk', hfw, hf, rfl⟩ := withWorker_spec h
+  cases hf
+  exact hi.setWorker_same (wk := wk) (by simpa [findWorker_some_id hfw] using hfw) rfl rfl rfl
+
+/-! ### `on_task_update`, `on_retract_response` -/
+
+theorem updateState_tw {s s1 : State} {w : Nat} {u : Update} {rets rets' : List (List TaskId)}
+    (hi : TWI noD s) (hinv : Inv s) (hok : UpdProto s w u) (h : s.updateState w u rets = .ok (s1, rets')) :
+    TWI noD s1 := by
+  cases u with
+  | finished t =>
+    simp only [State.updateState] at h
+    split at h
+    · cases h
+    · rename_i h1; cases h; exact taskFinished_tw hi hinv h1
+  | failed t =>
+    simp only [State.updateState] at h
+    split at h
+    · cases h
+    · rename_i h1; cases h; exact taskFailed_tw hi hinv h1
+  | running t rv =>
+    simp only [State.updateState] at h
+    split at h
+    · cases h
+    · rename_i h1; cases h; exact taskRunning_tw hi h1
+  | runningPrefilled t rv =>
+    simp only [State.updateState] at h
+    split at h
+    · cases h
+    · rename_i h1; cases h; exact taskRunning_tw hi h1
+  | reject t rv =>
+    simp only [State.updateState] at h
+    split at h
+    · cases h
+    · rename_i h1; cases h; exact taskReject_tw hi hok h1
+  | enable rq rv =>
+    simp only [State.updateState] at h
+    split at h
+    · cases h
+    · rename_i h1; cases h; exact requestEnabled_tw hi h1
+
+theorem updateLoop_tw (us : List Update) (s s' : State) (w : Nat) (rets rets' : List (List TaskId)) (o o' : Out)
+    (n n' : Bool) (hi : TWI noD s) (hinv : Inv s) (hok : UpdatesOk UpdProto s w us rets)
+    (h : s.updateLoop w us rets o n = .ok (s', o', n', rets')) : TWI noD s' := by
+  induction us generalizing s rets o n with
+  | nil => simp only [State.updateLoop] at h; cases h; exact hi
+  | cons u rest ih =>
+    obtain ⟨s1, rets1, out1, need1, h1, h2⟩ := updateLoop_cons h
+    simp only [UpdatesOk, h1] at hok
+    exact ih _ _ _ _ (updateState_tw hi hinv hok.1 h1) (updateState_inv hinv hok.1 h1) hok.2 h2
+
+theorem taskUpdate_tw {s s' : State} {w : Nat} {us : List Update} {rets : List (List TaskId)} {o : Out}
+    (hi : TWI noD s) (hinv : Inv s) (hok : UpdatesOk UpdProto s w us rets) (h : s.taskUpdate w us rets = .ok (s', o)) :
+    TWI noD s' := by
+  simp only [State.taskUpdate] at h
+  split at h
+  · cases h
+  · rename_i s1 out need rets' h1
+    cases h
+    have := updateLoop_tw _ _ _ _ _ _ _ _ _ _ hi hinv hok h1
+    split
+    · exact (CoreEq.ask s1).twi this
+    · exact this
+
+theorem retractLoop_tw (ids : List TaskId) (s s' : State) (w : Nat) (acc acc' : List (Nat × TaskId × Nat))
+    (hi : TWI noD s) (h : s.retractLoop w ids acc = .ok (s', acc')) : TWI noD s' := by
+  induction ids generalizing s acc with
+  | nil => simp only [State.retractLoop] at h; cases h; exact hi
+  | cons id rest ih =>
+    simp only [State.retractLoop, State.task?] at h
+    split at h
+    · exact ih _ _ hi h
+    · rename_i task ht
+      have hid : task.id = id := findTask_some_id ht
+      split at h
+      · exact ih _ _ hi h
+      · rename_i hs
+        simp only [ne_eq, Decidable.not_not] at hs
+        split at h
+        · rename_i t0 target trv hfind
+          refine ih _ _ ?_ h
+          have hmem := rd_mem_of_find hfind
+          have ht0' : t0 = id := by simpa using hmem.2
+          subst ht0'
+          obtain ⟨k1, k2⟩ := resolve_redirect_tw (inst := task.inst) hi ht hs hfind
+          exact ⟨k1, k2⟩
+        · rename_i hnone
+          refine ih _ _ ?_ h
+          have ht1 : findTask s.tasks ({ task with state := .waiting 0 } : Task).id = some task := by
+            rw [hid]; exact ht
+          constructor
+          · exact (hi.tw.put_noob ht1 trivial (fun _ _ _ _ h => h)
+              (fun x v hm => absurd hm (by show (task.id, x, v) ∉ _; rw [hid]; exact rd_find_none hnone x v))).mono
+              (fun u hu => hu.1)
+          · exact hi.mnu.put_nonmn ht1 (by simp)
+
+theorem retractResponse_tw {s s' : State} {w : Nat} {ids : List TaskId} {o : Out}
+    (hi : TWI noD s) (h : s.retractResponse w ids = .ok (s', o)) : TWI noD s' := by
+  simp only [State.retractResponse] at h
+  split at h
+  · cases h
+  · rename_i s1 items h1
+    split at h
+    · cases h
+    · cases h; exact retractLoop_tw _ _ _ _ _ _ hi h1
+
 end HqModel.Core
